@@ -59,3 +59,42 @@ class Dummy:
             raise ValueError("negative")
         self._limit = value
 
+
+class Echo:
+    """second stand-in (concrete annotations): echoes its words, returns empty / None / raising results"""
+
+    def __init__(self):
+        self.seen = []
+
+    def __str__(self):
+        return "P"
+
+    def echo(self, *words: str, sep: str = "|") -> str:
+        """Echo."""
+        self.seen.append(words)
+        return sep.join(words)
+
+    def blank(self) -> str:
+        """Returns the empty string."""
+        return ""
+
+    def nothing(self) -> None:
+        """Returns None."""
+
+    def empty(self) -> list:
+        """Returns []."""
+        return []
+
+    def boom(self) -> None:
+        """Raises an exception without a message."""
+        raise RuntimeError
+
+    @property
+    def level(self) -> int:
+        """Level."""
+        return 0
+
+    @level.setter
+    def level(self, value: int) -> None:
+        if value < 0:
+            raise ValueError
